@@ -36,7 +36,19 @@ type c20Input struct {
 var c20Inputs []c20Input
 var c20AnnexB [][]byte
 
+// c20FP0 is the fingerprint of the package-level registries/tables taken before this process decoded anything.
+var c20FP0 string
+
+// c20SetupDirty: the fingerprint changed during setup (which decodes the corpus files once to classify them).
+var c20SetupDirty bool
+
+func c20Fingerprint() string {
+	rd, sr, sge := mp4.VsimDecoderKeys()
+	return fmt.Sprint(rd, sr, sge, len(mp4.PrftFlagsInterpretation), len(mp4.CustomChannelMapLocations))
+}
+
 func c20Setup() error {
+	c20FP0 = c20Fingerprint()
 	c, err := work.LoadCorpus()
 	if err != nil {
 		return err
@@ -86,12 +98,21 @@ func c20Setup() error {
 			c20Inputs = append(c20Inputs, c20Input{name: fmt.Sprintf("built-init-%d", seed), master: b.Bytes()})
 		}
 	}
+	// small files followed by a sample group description box of a grouping type the library has no entry decoder for
+	for i, gt := range []string{"zzzz", "abcd"} {
+		if base := work.ByName([]string{"V300/init.mp4", "golden_init_video.mp4"}[i]); base != nil {
+			sg := append([]byte{0, 0, 0, 28, 's', 'g', 'p', 'd', 1, 0, 0, 0}, gt...)
+			sg = append(sg, 0, 0, 0, 4, 0, 0, 0, 1, 0xde, 0xad, 0xbe, 0xef)
+			c20Inputs = append(c20Inputs, c20Input{name: base.Name + "+sgpd(" + gt + ")", master: append(append([]byte(nil), base.Data...), sg...)})
+		}
+	}
 	// Annex B byte streams
 	for _, p := range []string{"avc/testdata/blackframe.264", "avc/testdata/two-frames.264", "cmd/mp4ff-nallister/testdata/4pics.264"} {
 		if b, err := readRepoFile(p); err == nil {
 			c20AnnexB = append(c20AnnexB, b)
 		}
 	}
+	c20SetupDirty = c20Fingerprint() != c20FP0
 	if len(c20Inputs) < 8 || len(c20AnnexB) == 0 {
 		return fmt.Errorf("c20: too few inputs (%d files, %d annexb)", len(c20Inputs), len(c20AnnexB))
 	}
@@ -403,8 +424,7 @@ func c20Run(r *sim.Run) {
 		}
 		r.Logf("task %d on input %d (%s): %s", i+1, sc.input, ins[sc.input].name, strings.Join(ks, " "))
 	}
-	rd0, sr0, sge0 := mp4.VsimDecoderKeys()
-	fp0 := fmt.Sprint(rd0, sr0, sge0, len(mp4.PrftFlagsInterpretation), len(mp4.CustomChannelMapLocations))
+	fp0 := c20Fingerprint()
 	sim.NewRaceReports() // discard anything older
 	// ---- concurrent phase
 	tasks := make([]*c20Task, nTasks)
@@ -462,6 +482,13 @@ func c20Run(r *sim.Run) {
 		}
 		r.Probe("mode-A-serialised")
 	}
+	// ---- oracle (iv): package-level state (first: it is the deterministic one of the sensors)
+	if fp1 := c20Fingerprint(); fp1 != fp0 {
+		r.Violate("c20-global-state", "package-level registries/tables changed during the run")
+	}
+	if c20SetupDirty {
+		r.Violate("c20-global-state", "package-level registries/tables changed while this process decoded the corpus once, sequentially, before the first run")
+	}
 	// ---- oracle (i): race detector
 	for _, rr := range sim.NewRaceReports() {
 		if rr.Harness {
@@ -488,11 +515,6 @@ func c20Run(r *sim.Run) {
 	if !bytes.Equal(keymat, keyMaster) {
 		r.Violate("c20-input-mutated:key-material", "the shared read-only key/IV material was modified (first changed byte %d)", firstDiff(keymat, keyMaster))
 		copy(keymat, keyMaster)
-	}
-	// ---- oracle (iv): package-level state
-	rd1, sr1, sge1 := mp4.VsimDecoderKeys()
-	if fp1 := fmt.Sprint(rd1, sr1, sge1, len(mp4.PrftFlagsInterpretation), len(mp4.CustomChannelMapLocations)); fp1 != fp0 {
-		r.Violate("c20-global-state", "package-level registries/tables changed during the run")
 	}
 	// ---- oracle (ii): every task got exactly what it gets when run alone (pristine inputs)
 	for i := range shared {
